@@ -849,10 +849,10 @@ class Variable(CanBehaveLikeAVariable[T]):
     def _reset_only_my_cache_(self) -> None:
         super()._reset_only_my_cache_()
         if self._domain_is_the_registry_:
-            # the registry is live, it is read again by the next evaluation.
+            # the registry is live, it is read again by the next evaluation (the flag stays, the operators above this
+            # variable look at it when they are reset, in whatever order the nodes are visited).
             self._domain_ = HashedIterable()
             self._domain_source_ = None
-            self._domain_is_the_registry_ = False
 
     def _validate_inputs_and_fill_missing_ones_(self):
         if self._kwargs_ and not self._type_:
@@ -1355,6 +1355,15 @@ class BinaryOperator(SymbolicExpression, ABC):
         self.left, self.right = self._update_children_(self.left, self.right)
         combined_vars = self.left._unique_variables_.union(self.right._unique_variables_)
         self._cache_.keys = [v.id_ for v in combined_vars.filter(lambda v: not isinstance(v.value, Literal))]
+
+    def _reset_only_my_cache_(self) -> None:
+        super()._reset_only_my_cache_()
+        if any(getattr(v.value, '_domain_is_the_registry_', False) for v in self._unique_variables_):
+            # a variable that ranges over the live registry of instances has a different domain in the next evaluation,
+            # what was cached for it is valid for this evaluation only.
+            for cache in (getattr(self, name, None) for name in ('_cache_', 'right_cache', 'left_cache')):
+                if cache is not None:
+                    cache.clear()
 
     def yield_final_output_from_cache(self, variables_sources, cache: Optional[IndexedCache] = None) \
             -> Iterable[Dict[int, HashedValue]]:
